@@ -1,7 +1,14 @@
 import Batteries.Tactic.Alias
 import GenlmModel.Proofs.Regex
+import GenlmModel.Proofs.FsmWfsa
 /-! # C18 — the reference matcher the regex automata are compared with is verified -/
 namespace Genlm.Props.C18
 /-- the matcher decides exactly the denotation of the (desugared) regular expression -/
 alias matcher_decides_denotation := Genlm.Re.accepts_iff
+/-- model of the FSM→WFSA step of `interegular_to_wfsa`: every state with fan-out > 0 has outgoing mass + final weight = 1 -/
+alias fsm_to_wfsa_normalised := Genlm.fsmToWfsa_normalised_field
+/-- positive weight ⇔ the FSM accepts through live states -/
+alias fsm_to_wfsa_support := Genlm.fsmToWfsa_support_field
+/-- string weights form a sub-probability distribution -/
+alias fsm_to_wfsa_subprobability := Genlm.fsmToWfsa_subprob_field
 end Genlm.Props.C18
